@@ -261,6 +261,7 @@ func checkC02(c *Ctx) {
 	// ---- R3 flags
 	checkValidationFlags(c, gen)
 	checkEnumCasePolarity(c, "C02.R1.enum-case", ev)
+	checkRangeFilters(c, "C02.R2.range-filters", ev, reviewedRangeFilters, 25)
 	checkExtensionGetters(c, "C02.R3.extension-values", gen)
 	c.Rule("C02.R2.decode-keys", "a declared property is removed from the additional-properties map by its JSON name before the rest is decoded as additional properties", 2)
 	checkEmitRules(c, "C02.R2.decode-keys", ev, []emitRule{serializerRules[2]})
